@@ -4,6 +4,7 @@ import (
 	"context"
 	"fmt"
 	"os"
+	"reflect"
 	"runtime"
 	"sort"
 	"strings"
@@ -744,6 +745,37 @@ func (b *bb) scenarioDynamic() {
 		}
 		mu.Unlock()
 	}
+	// an unbuffered input that is registered late and stays idle for a while: the traffic of the
+	// other inputs goes on (the discipline gives up on an idle unbuffered input after two ticks of
+	// its interrupter), and what is written to it later is delivered
+	{
+		idle := make(chan int)
+		dsc.AddInput(idle, 9)
+		count := func() int { mu.Lock(); defer mu.Unlock(); return len(tags) }
+		n0 := count()
+		deadline := time.Now().Add(3 * time.Second)
+		for count() < n0+20 && time.Now().Before(deadline) {
+			time.Sleep(200 * time.Microsecond)
+		}
+		if got := count() - n0; got < 20 {
+			b.fail("C06 dynamic: after AddInput of an idle unbuffered input (priority 9) only %d items of the busy input were delivered in 3s although handlers release at once (H=%d)", got, H)
+		} else {
+			select {
+			case idle <- 900000:
+			case <-time.After(3 * time.Second):
+				b.fail("C06 dynamic: an item written to the late-added unbuffered input was not accepted within 3s (H=%d)", H)
+			}
+			// (only a discipline that is still serving its inputs is asked to remove one: a
+			// RemoveInput left blocked would be hit by the termination below)
+			rm := make(chan struct{})
+			go func() { dsc.RemoveInput(9); close(rm) }()
+			select {
+			case <-rm:
+			case <-time.After(10 * time.Second):
+				b.fail("C17 dynamic: RemoveInput of the late-added unbuffered input did not return within 10s (H=%d)", H)
+			}
+		}
+	}
 	ret := make(chan struct{})
 	go func() { dsc.Stop(); close(ret) }()
 	select {
@@ -859,7 +891,7 @@ func (b *bb) scenarioFaulty() {
 	c := b.randPrioCfg()
 	v1 := b.cycle("faulty", 2) == 0
 	after := int32(3 + b.r.Intn(12))
-	var calls int32
+	var calls, fired int32
 	kind := []string{"over", "under"}[b.r.Intn(2)] // an all-zero result is exempt (C15: "non-zero added total")
 	corrupt := func(prios []uint, dist map[uint]uint) {
 		switch kind {
@@ -987,6 +1019,7 @@ func (b *bb) scenarioFaulty() {
 			out := base(prios, q, dist)
 			if atomic.AddInt32(&calls, 1) > after && q > 0 && len(prios) > 0 {
 				corrupt(prios, out)
+				atomic.StoreInt32(&fired, 1)
 			}
 			return out
 		}
@@ -1000,10 +1033,17 @@ func (b *bb) scenarioFaulty() {
 				return
 			}
 			startProducers()
+			graceful := b.r.Intn(2) == 0
+			if graceful {
+				// a graceful stop is pending when the divider breaks its contract (with it, a normal
+				// termination before the fault ever fires is possible: only a fault that did fire
+				// has to be reported)
+				go sd.GracefulStop()
+			}
 			select {
 			case e, ok := <-sd.Err():
-				if !ok || e == nil {
-					b.fail("C15 faulty v1 simple: the divider broke its contract (%s) but Err() yielded %v (open=%v) (%s)", kind, e, ok, desc)
+				if (!ok || e == nil) && (!graceful || atomic.LoadInt32(&fired) == 1) {
+					b.fail("C15 faulty v1 simple: the divider broke its contract (%s) but Err() yielded %v (open=%v) (graceful stop pending: %v) (%s)", kind, e, ok, graceful, desc)
 				}
 			case <-time.After(10 * time.Second):
 				b.fail("C15 faulty v1 simple: the divider broke its contract (%s) but no error was reported within 10s (%s)", kind, desc)
@@ -1395,4 +1435,50 @@ func (b *bb) scenarioSaturated() {
 	writers.Wait()
 	b.leakProbe("normal termination of v2 priority (saturated)")
 	b.note("saturated", fmt.Sprintf("prios=%v H=%d caps=%v fair=%v rounds=%d", prios, H, caps, fair, rounds), before)
+}
+
+// scenarioUtils (C20, C18): the handler-quantity helpers are called from several goroutines with
+// one priorities slice that belongs to the caller - in the caller's own order, not sorted - while
+// the caller goes on reading it.  The helpers work on a copy: the slice is never written to.
+func (b *bb) scenarioUtils() {
+	before := b.fails()
+	shared := []uint{1, 2, 3, 5, 8}
+	orig := append([]uint(nil), shared...)
+	var wg sync.WaitGroup
+	for g := 0; g < 3; g++ {
+		wg.Add(1)
+		go func(g int) {
+			defer wg.Done()
+			for i := 0; i < 30; i++ {
+				switch (g + i) % 6 {
+				case 0:
+					utils.IsNonFatalConfig(shared, divider.Fair, 7)
+				case 1:
+					utils.PickUpMinNonFatalQuantity(shared, divider.Rate, 12)
+				case 2:
+					utils.PickUpMaxNonFatalQuantity(shared, divider.Fair, 12)
+				case 3:
+					utils.IsSuitableConfig(shared, divider.Fair, 12, 10)
+				case 4:
+					utils.PickUpMinSuitableQuantity(shared, divider.Rate, 12, 50)
+				case 5:
+					utils.PickUpMaxSuitableQuantity(shared, divider.Fair, 12, 50)
+				}
+			}
+		}(g)
+	}
+	sum := uint(0)
+	for i := 0; i < 300; i++ {
+		for _, p := range shared {
+			sum += p
+		}
+		runtime.Gosched()
+	}
+	wg.Wait()
+	if !reflect.DeepEqual(shared, orig) {
+		b.fail("C20 utils: the priorities slice owned by the caller was modified by the helpers: %v instead of %v (with several callers: a data race on user data)", shared, orig)
+		b.fail("C18 utils: the priorities slice owned by the caller was modified by the helpers: %v instead of %v", shared, orig)
+	}
+	_ = sum
+	b.note("utils", "shared priorities slice", before)
 }
